@@ -53,7 +53,12 @@ type mgate struct {
 type mregion struct {
 	gates   []*mgate
 	counter int
-	recon   *[2]string // reconstructed holder (subject, authority) from reported transfers
+	// released counts the gates released while the region stayed alive. The model compares
+	// positions only by order, but an implementation may number its gates in a way that
+	// depends on how many have come and gone, so states that differ in this (up to 2) are
+	// kept apart.
+	released int
+	recon    *[2]string // reconstructed holder (subject, authority) from reported transfers
 }
 
 func (r *mregion) holder() *mgate {
@@ -256,6 +261,7 @@ func (s *csys) Apply(op string) (string, error) {
 			}
 		}
 		reg.gates = rest
+		reg.released++
 		if err := s.judge(op, reg, before, reg.holder(), bAuth, t); err != nil {
 			return "", err
 		}
@@ -279,7 +285,7 @@ func (s *csys) regCanon(name string) string {
 	for _, g := range gs { // relative order only: positions are compared, never used as numbers
 		fmt.Fprintf(&b, "%s:%d ", g.subj, g.auth)
 	}
-	fmt.Fprintf(&b, "holder=%s}", st(reg.holder()))
+	fmt.Fprintf(&b, "holder=%s released=%d}", st(reg.holder()), min(reg.released, 2))
 	return b.String()
 }
 
@@ -341,12 +347,17 @@ type wsess struct {
 	w    *cesium.Writer
 	auth xcontrol.Authority
 	pos  int
-	next int // value counter
+	next int   // value counter
+	pend []int // grid indices written with authority and not committed yet (manual commit)
+	// refused: a write of this writer was refused after its last accepted write or commit. The model gives it no
+	// effect, but states that differ in it are kept apart: an implementation may remember it.
+	refused bool
 }
 
 type esys struct {
 	w       *cz.World
 	shared  bool
+	manual  bool // writers commit explicitly; one writer at a time holds uncommitted data
 	ws      map[string]*wsess
 	counter int
 	want    []string // values that must be readable on i64 (authorised, committed writes), in ts order
@@ -359,6 +370,15 @@ func newEsys() (*esys, error) {
 		return nil, err
 	}
 	return &esys{w: w, ws: map[string]*wsess{}}, nil
+}
+
+func newEsysManual() (*esys, error) {
+	s, err := newEsys()
+	if err != nil {
+		return nil, err
+	}
+	s.manual = true
+	return s, nil
 }
 
 func (s *esys) Close() {
@@ -388,18 +408,38 @@ func (s *esys) Ops() []string {
 			}
 			continue
 		}
-		if s.nextTS < len(s.w.Grid) {
+		// manual commit: while one writer holds uncommitted data the others do not write with
+		// authority into the same stretch (their sessions would overlap once committed); they may
+		// still try without it
+		hn, _ := s.holder()
+		if u := s.uncommitted(); s.nextTS < len(s.w.Grid) && (!s.manual || u == "" || u == n || hn != n) {
 			ops = append(ops, "write "+n)
 		}
 		for _, a := range auths {
 			ops = append(ops, fmt.Sprintf("set %s %d", n, a))
+		}
+		if s.manual {
+			ops = append(ops, "commit "+n)
 		}
 		ops = append(ops, "close "+n)
 	}
 	return ops
 }
 
+// uncommitted returns the writer that holds uncommitted data, if any
+func (s *esys) uncommitted() string {
+	for n, x := range s.ws {
+		if len(x.pend) > 0 {
+			return n
+		}
+	}
+	return ""
+}
+
 func (s *esys) Apply(op string) (string, error) {
+	if os.Getenv("C05_DEBUG") != "" {
+		fmt.Fprintf(os.Stderr, "DBG canon=%s\n    ops=%v\n    apply %s\n", s.Canon(), s.Ops(), op)
+	}
 	f := strings.Fields(op)
 	switch f[0] {
 	case "open":
@@ -409,7 +449,7 @@ func (s *esys) Apply(op string) (string, error) {
 		start := s.w.Grid[min(s.nextTS, len(s.w.Grid)-1)]
 		cw, err := s.w.DB.OpenWriter(cz.Ctx, cesium.WriterConfig{Start: start, Channels: []cesium.ChannelKey{cz.T, cz.I64},
 			ControlSubject: xcontrol.Subject{Key: f[1]}, Authorities: []xcontrol.Authority{xcontrol.Authority(a)},
-			Sync: new(true), EnableAutoCommit: new(true), AutoIndexPersistInterval: cesium.AlwaysIndexPersistOnAutoCommit, Mode: cesium.WriterModePersistOnly})
+			Sync: new(true), EnableAutoCommit: new(!s.manual), AutoIndexPersistInterval: cesium.AlwaysIndexPersistOnAutoCommit, Mode: cesium.WriterModePersistOnly})
 		if err != nil {
 			return "refused:" + err.Error()[:min(40, len(err.Error()))], nil
 		}
@@ -427,6 +467,41 @@ func (s *esys) Apply(op string) (string, error) {
 			return "", vk.Violationf("set-authority-error", "%s failed: %v", op, err)
 		}
 		x.auth = xcontrol.Authority(a)
+		return "ok", nil
+	case "commit":
+		x := s.ws[f[1]]
+		hn, _ := s.holder()
+		end, err := x.w.Commit()
+		if hn != f[1] {
+			// a commit without control: whatever it answers, it must have no effect (Check)
+			if err != nil {
+				return "", vk.Violationf("commit-error", "%s failed: %v (holder %s)", op, err, hn)
+			}
+			return "ok-not-holder", nil
+		}
+		if err != nil {
+			return "", vk.Violationf("commit-error", "%s failed: %v (holder %s)", op, err, hn)
+		}
+		if len(x.pend) > 0 {
+			last := x.pend[len(x.pend)-1]
+			want := s.w.Grid[last] + 1
+			switch {
+			case end > want:
+				return "", vk.Violationf("commit-covers-refused-write", "%s reported end %d; the last write accepted from this writer is at %d, so nothing it may commit lies past %d: a refused write had an effect (writers %s)", op, end, s.w.Grid[last], want, s.Canon())
+			case end < want && x.refused:
+				// The writer lost control and had a write refused since its last accepted
+				// write: cesium holds its uncommitted samples back until it is next allowed to
+				// write (documented in idxWriter.Commit). They stay pending.
+				return "ok-held-back", nil
+			case end < want:
+				return "", vk.Violationf("commit-end-mismatch", "%s reported end %d; the last write it accepted from this writer is at %d, so the committed range ends at %d (writers %s)", op, end, s.w.Grid[last], want, s.Canon())
+			}
+			for _, i := range x.pend {
+				s.want = append(s.want, cz.ValueOf(cz.I64, i, s.w.Grid))
+			}
+			x.pend = nil
+		}
+		x.refused = false
 		return "ok", nil
 	case "close":
 		x := s.ws[f[1]]
@@ -449,11 +524,18 @@ func (s *esys) Apply(op string) (string, error) {
 		if authorized != want {
 			return "", vk.Violationf("authorized-flag-mismatch", "%s reported authorized=%v, model holder is %s (writers %s)", op, authorized, hn, s.Canon())
 		}
+		if want && s.manual {
+			x.refused = false // refused counts from the last accepted write on
+			x.pend = append(x.pend, i)
+			s.nextTS++
+			return "ok-authorized", nil
+		}
 		if want {
 			s.want = append(s.want, cz.ValueOf(cz.I64, i, s.w.Grid))
 			s.nextTS++
 			return "ok-authorized", nil
 		}
+		x.refused = true
 		return "ok-unauthorized", nil
 	}
 	return "", fmt.Errorf("unknown op %q", op)
@@ -468,6 +550,12 @@ func (s *esys) Canon() string {
 	var b strings.Builder
 	for _, n := range ns {
 		fmt.Fprintf(&b, "%s:%d ", n, s.ws[n].auth)
+		if len(s.ws[n].pend) > 0 {
+			fmt.Fprintf(&b, "pend%v ", s.ws[n].pend)
+		}
+		if s.manual && s.ws[n].refused {
+			b.WriteString("refused ")
+		}
 	}
 	fmt.Fprintf(&b, "| written=%d | real:%v", s.nextTS, s.readAll())
 	return b.String()
@@ -510,6 +598,7 @@ func main() {
 		{"controller exclusive, 3 subjects, 2 regions", d1, func() (seqx.Sys, error) { return newCsys(false, []string{"a", "b", "c"}) }},
 		{"controller shared, 3 subjects, 2 regions", d2, func() (seqx.Sys, error) { return newCsys(true, []string{"a", "b", "c"}) }},
 		{"cesium writers on one exclusive channel group", d3, func() (seqx.Sys, error) { return newEsys() }},
+		{"cesium writers with explicit commits on one exclusive channel group", d3 + 1, func() (seqx.Sys, error) { return newEsysManual() }},
 	}
 	mkcfg := func(x sc) seqx.Config {
 		return seqx.Config{Name: x.name, MaxDepth: x.depth, Seed: r.Seed, New: x.mk}
@@ -538,6 +627,9 @@ func main() {
 		r.Finish()
 	}
 	for i, x := range scs {
+		if o := os.Getenv("C05_ONLY"); o != "" && !strings.Contains(x.name, o) {
+			continue
+		}
 		cfg := mkcfg(x)
 		cfg.Deadline = time.Now().Add(r.Left() / time.Duration(len(scs)-i))
 		seqx.Merge(r, seqx.Explore(r, cfg))
